@@ -448,6 +448,10 @@ def expand_repeats(text):
 
 
 def minimise(binary, text, ref_class, timeout=30):
+    if ref_class == 'hang':
+        # every failing candidate costs a full time-out: one coarse pass only
+        t1, n1 = ddmin(binary, text, ref_class, timeout, max_tests=60)
+        return t1, n1
     ex = expand_repeats(text)
     if same_failure(_exec(binary, ex, timeout), ref_class):
         text = ex
